@@ -19,7 +19,7 @@ use proptest::prelude::*;
 use proptest::strategy::BoxedStrategy;
 use serde_json::{json, Value};
 
-pub const DIMS: [&str; 15] = ["capacity", "id", "alpha", "byte-value", "datum-length", "group-shape", "edges", "char", "vertex-count", "unread-count", "alias-pair", "repeat-count", "mirror-twins", "pairs", "big-image"];
+pub const DIMS: [&str; 16] = ["hash-twins", "capacity", "id", "alpha", "byte-value", "datum-length", "group-shape", "edges", "char", "vertex-count", "unread-count", "alias-pair", "repeat-count", "mirror-twins", "pairs", "big-image"];
 
 pub struct Scenario {
     pub cfg: Cfg,
@@ -102,6 +102,8 @@ pub fn points(dim: &str, thorough: bool, prop: &str) -> Vec<u64> {
         // two vertices with the same edges bound in opposite order and the same data: x = variant bits
         // (1: both collected, reached through dangling edges; 2: ids 64 apart instead of adjacent; 4: data differ)
         "mirror-twins" => (0..8).collect(),
+        // pairs of texts that collide under a common 32-bit hash function (twins.rs), as labels of one vertex and data of two
+        "hash-twins" => (0..crate::twins::hash_twins().len() as u64).collect(),
         // every PAIR of dimensions at their boundary values on one composite scenario:
         // x = pair << 16 | i << 8 | j
         "pairs" => {
@@ -465,6 +467,25 @@ pub fn build_for(dim: &str, x: u64, drain: bool) -> Option<Scenario> {
             ]);
             if drain {
                 calls.extend([Call::Data(xx), Call::Data(z), Call::Add(y), Call::Add(xx), Call::Kids(y), Call::Kids(xx), Call::Add(z), Call::Kids(z)]);
+            }
+        }
+        "hash-twins" => {
+            let t = crate::twins::hash_twins().get(x as usize)?;
+            cfg = Cfg { n: 3, cap: 6 };
+            let (la, lb) = (Lab::Str(t.a.clone()), Lab::Str(t.b.clone()));
+            for v in 0..5 {
+                calls.push(Call::Add(v));
+            }
+            calls.extend([
+                bind(0, 1, la.clone()), Call::Kid(0, la.clone()), Call::Kid(0, lb.clone()),
+                bind(0, 2, lb.clone()), Call::Kid(0, lb.clone()), Call::Kid(0, la.clone()), Call::Kids(0),
+                Call::Kid(3, la.clone()), Call::Kid(3, lb.clone()),
+                Call::Put(1, t.a.as_bytes().to_vec()), Call::Put(2, t.b.as_bytes().to_vec()),
+                Call::Put(3, [t.a.as_bytes(), b"-tail"].concat()), Call::Put(4, [t.b.as_bytes(), b"-tail"].concat()),
+                bind(3, 4, la), bind(4, 3, lb.clone()), Call::Kid(4, lb), Call::Kids(3), Call::Kids(4),
+            ]);
+            if drain {
+                calls.extend([Call::Data(3), Call::Data(4), Call::Data(3)]);
             }
         }
         "repeat-count" => {
